@@ -117,8 +117,8 @@ class Recorder:
         rng = self.rng
         obj = self.obj
         shape = self.shape
-        ops = ["copy", "apply", "apply", "reshape", "flatten", "index", "slice", "setitem", "setitem", "stack", "combine",
-               "astype", "query"]
+        ops = ["copy", "apply", "apply", "reshape", "flatten", "index", "slice", "setitem", "setitem", "setkey", "setkey",
+               "swap", "stack", "combine", "astype", "query"]
         op = rng.choice(ops)
         if op == "copy":
             kind = rng.choice(["copy", "deepcopy", "ctor"])
@@ -191,6 +191,58 @@ class Recorder:
             as_ = rng.choice(["object", "array"])
             obj[i] = np.array(Y.proj_data) if as_ == "array" else Y
             self.log("setitem", i=i, yshape=ys, ycell=ycell, value=as_)
+        elif op == "setkey":
+            if not shape:
+                return
+            n = shape[0]
+            tail = shape[1:]
+            kind = rng.choice(["neg", "list", "intarray", "mask", "step", "tuple"])
+            if kind == "tuple":
+                ix = [rng.randrange(d) for d in shape[:rng.randint(1, len(shape))]]
+                sub = shape[len(ix):]
+                k = rng.randint(0, len(sub))
+                ys = [d if rng.random() < 0.6 else 1 for d in sub[len(sub) - k:]]
+                ycell = self.rand_codes(int(np.prod(ys)) if ys else 1, applied=True)
+                obj[tuple(ix)] = self.make(ys, ycell)
+                self.log("settuple", ix=ix, yshape=ys, ycell=ycell)
+                return
+            if kind == "neg":
+                i = rng.randrange(n)
+                key, rows = i - n, [i]
+            elif kind in ("list", "intarray"):
+                rows = rng.sample(range(n), rng.randint(1, n))
+                key = rows if kind == "list" else np.array(rows)
+            elif kind == "mask":
+                m = [rng.random() < 0.5 for _ in range(n)]
+                if not any(m):
+                    m[rng.randrange(n)] = True
+                key, rows = np.array(m), [i for i in range(n) if m[i]]
+            else:
+                step = rng.choice([2, 3, -1, -2])
+                key = slice(None, None, step)
+                rows = list(range(n))[key]
+            # value: broadcastable to the selected sub-array (an integer key drops the first axis)
+            full = ([] if kind == "neg" else [len(rows)]) + tail
+            k = rng.randint(0, len(full))
+            ys = [d if rng.random() < 0.6 else 1 for d in full[len(full) - k:]]
+            ycell = self.rand_codes(int(np.prod(ys)) if ys else 1, applied=True)
+            Y = self.make(ys, ycell)
+            obj[key] = np.array(Y.proj_data) if rng.random() < 0.5 else Y
+            # the specification sees the value with the axis of the selected rows
+            if kind == "neg":
+                ys2 = [1] + tail
+                cell2 = list(np.broadcast_to(np.array(ycell).reshape(ys), tail).reshape(-1)) if tail or ys else ycell
+                self.log("setrows", rows=rows, yshape=ys2, ycell=[int(c) for c in cell2], key=kind)
+            else:
+                self.log("setrows", rows=[int(r) for r in rows], yshape=ys, ycell=ycell, key=kind)
+        elif op == "swap":
+            if not shape or shape[0] < 2:
+                return
+            i, j = rng.sample(range(shape[0]), 2)
+            tmp = obj[i]
+            obj[i] = obj[j]
+            obj[j] = tmp
+            self.log("swap", i=i, j=j)
         elif op == "stack":
             n = rng.randint(1, 2)
             if self.size() * (n + 1) > 36 or len(shape) >= 3:
